@@ -305,6 +305,11 @@ class StmtMixin:
             self.oblige(st, z3.Not(opt_is_none(v)), "typing", f"value of type {v.t} stored as {t}", None,
                         note="declared non-optional")
             return coerce(opt_get(v), t)
+        if (isinstance(t, TTuple) and isinstance(v.t, TTuple) and len(t.elts) == len(v.t.elts)
+                and isinstance(v.z, tuple) and any(isinstance(e.t, TOpt) and not isinstance(te, (TOpt, TOpaque))
+                                                   for e, te in zip(v.z, t.elts))):
+            # the same, element-wise, for a tuple literal such as (self.__ids.mid, data) stored as tuple[int,bytes]
+            return V(t, tuple(self.coerce_to(st, e, te) for e, te in zip(v.z, t.elts)))
         return coerce(v, t)
 
     def assign(self, tgt, v: V, st: State, node):
